@@ -1006,6 +1006,21 @@ def flip_jpt_case(rows, k=3):
     return out
 
 
+def flip_tfr_case(rows, k=3):
+    out = []
+    for r in rows:
+        if r["out"].get("accept") is True and r["row"]["update"] != "none" and r["row"]["which"] == "new":
+            r = json.loads(json.dumps(r))
+            r["out"]["accept"] = False          # claim that an updated credential is dead inside its new frame
+            r["out"]["cause"] = "outside_timeframe"
+            out.append(r)
+            if len(out) >= k:
+                break
+    if not out:
+        raise ToolError("canary: no accepted updated credential")
+    return out
+
+
 def extended_stage(chk, module, driver, tag, canary=None, workers=2, timeout=1200):
     """A specification beyond the listed properties, run inside this property's plan: model-checked, replayed on the real
     code, deviations reported as EXTENDED-SPEC DEVIATION (never as violations of this property). Its canary must not be able
@@ -1037,6 +1052,8 @@ def c16(chk):
     chk.canary_cases(r["cases_file"], flip_sdjwt_case)
     # beyond the list: the other selective-disclosure format, JSON Proof Tokens with BBS+ (JptFlow.tla)
     extended_stage(chk, "JptFlow", "JPT", ".jpt", canary=flip_jpt_case)
+    # ... and its revocation mechanism: validity timeframes kept alive by BBS+ signature updates (TimeframeRevocation.tla)
+    extended_stage(chk, "TimeframeRevocation", "TFR", ".tfr", canary=flip_tfr_case)
     chk.assumptions += ["sd-jwt-payload 0.2 (SdObjectEncoder/Decoder, SHA-256) trusted for disclosure hashing",
                         "the 'no latest bound' rows compare with the current time; iat is chosen decades away from any run"]
 
